@@ -70,6 +70,12 @@ func allScenarios(thorough bool) []Scenario {
 		out = append(out, Scenario{Proto: "redis", Backend: b, When: "pipeline-waiting", Conns: 1})
 		out = append(out, Scenario{Proto: "redis", Backend: b, When: "refresh-waiting"})
 	}
+	// the stop-all of the upstream against a redirection / a connect in flight (redirect.go)
+	out = append(out, Scenario{Proto: "redis", Backend: "fresh-target", When: "redirect-in-flight-at-stop"})
+	out = append(out, Scenario{Proto: "redis", Backend: "full-target-queue", When: "redirect-in-flight-at-stop"})
+	out = append(out, Scenario{Proto: "redis", Backend: "slow-accept", When: "connect-pending-at-stop"})
+	out = append(out, Scenario{Proto: "redis", Backend: "silent", When: "backend-queue-full-at-stop"})
+	out = append(out, Scenario{Proto: "redis", Backend: "full-target-queue", When: "refresh-blocked-at-stop"})
 	return out
 }
 
@@ -88,7 +94,13 @@ func printScenarios(args []string) error {
 	defer w.Close()
 	for i, s := range allScenarios(cli.Thorough()) {
 		sc := s
-		if err := w.Write(Job{ID: *first + i, Kind: "proc", Name: s.name(), DeadlineMs: *dl, Attempt: 1, Scenario: &sc}); err != nil {
+		d := *dl
+		if isUpstreamScenario(&sc) {
+			// judged with the generous deadline at once: the windows are entered with a probability
+			// (map order) or by a real 1 s SYN retransmission, a re-run would not re-enter them for sure
+			d = 10000
+		}
+		if err := w.Write(Job{ID: *first + i, Kind: "proc", Name: s.name(), DeadlineMs: d, Attempt: 1, Scenario: &sc}); err != nil {
 			return err
 		}
 	}
@@ -202,6 +214,9 @@ func (t *procTrail) key(point string, a, b interface{}) string {
 func runScenario(job *Job) (res Result) {
 	t0 := time.Now()
 	s := job.Scenario
+	if isUpstreamScenario(s) {
+		return runUpstreamScenario(job)
+	}
 	res = Result{ID: job.ID, Kind: job.Kind, Name: job.Name, Attempt: job.Attempt, DeadlineMs: job.DeadlineMs, DivergeAt: -1, Exact: true}
 	defer func() { res.WallMs = ms(time.Since(t0)) }()
 	deadline := time.Duration(job.DeadlineMs) * time.Millisecond
